@@ -236,3 +236,14 @@ where
         // TODO: Limit iteration counts and add Err(PlanningError::NoSolutionFound)
     }
 }
+
+#[cfg(feature = "verif")]
+impl<S: State + Clone, SP: StateSpace<StateType = S>, G: Goal<S>> RRT<S, SP, G> {
+    /// Read-only copy of the search tree: (state, parent index) per node, in storage order.
+    pub fn verif_snapshot(&self) -> Vec<(S, Option<usize>)> {
+        self.tree
+            .iter()
+            .map(|n| (n.state.clone(), n.parent_index))
+            .collect()
+    }
+}
